@@ -53,6 +53,8 @@ def _gen_op(rng, ds, name=None):
     elif name in ('find_results_groups', 'check_for_old'):
         op['tool'] = rng.choice(['Fit', 'Fit', 'Fitting', 'None'])
         op['parms'] = rng.choice([None, dict(PARMS), {'p': 2, 'q': 'text'}, {'p': 1}])
+        op['parent'] = rng.random() < 0.4          # the optional parent-group keyword
+        op['target'] = rng.choice([None, None, 'Res', 'absent'])
     elif name == 'check_for_matching_attrs':
         op['parms'] = rng.choice([dict(PARMS), {'p': 2}, {'zz': 3}, {}])
     elif name == 'get_n_dim_form':
@@ -314,9 +316,13 @@ def _do(op, cx, inp):
     if name == 'find_dataset':
         return sorted(x.name for x in hu.find_dataset(f, op['dset']))
     if name == 'find_results_groups':
-        return sorted(x.name for x in hu.find_results_groups(main, op['tool']))
+        kw = {'h5_parent_group': main.parent} if op.get('parent') else {}
+        return sorted(x.name for x in hu.find_results_groups(main, op['tool'], **kw))
     if name == 'check_for_old':
-        return sorted(x.name for x in hu.check_for_old(main, op['tool'], new_parms=op['parms']))
+        kw = {'h5_parent_goup': main.parent} if op.get('parent') else {}
+        if op.get('target'):
+            kw['target_dset'] = op['target']
+        return sorted(x.name for x in hu.check_for_old(main, op['tool'], new_parms=op['parms'], **kw))
     if name == 'check_for_matching_attrs':
         tgt = g['main-Fit_000'] if 'main-Fit_000' in g else g['main-Fitting_000']
         return bool(hu.check_for_matching_attrs(tgt, new_parms=op['parms']))
